@@ -165,6 +165,10 @@ b("B48", FOREIGN, "\t\ttx::update_stored_tx(&mut *w, keychain_mask, &context, &s
 b("B49", OWNER, "\tif context.late_lock_args.is_some() {\n\t\treturn Ok(());\n\t}\n", "\tif let Some(_) = context.late_lock_args {\n\t\treturn Ok(());\n\t}\n", "late-lock test written as if-let")
 b("B50", CTRL, "\t\tif !req.is_object() || req[\"method\"].as_str() != Some(\"encrypted_request_v3\") {", "\t\tlet named = req[\"method\"].as_str() == Some(\"encrypted_request_v3\");\n\t\tif !(req.is_object() && named) {", "envelope test written positively")
 b("B51", OWNER, "\t\tstd::cmp::max(w.last_confirmed_height()?, w.last_scanned_block()?.height);", "\t\tw.last_scanned_block()?.height.max(w.last_confirmed_height()?);", "max() written as a method, operands swapped")
+b("B52", OWNER, "\t\tif tx.confirmed || tx.tx_type == TxLogEntryType::TxReverted {\n\t\t\tcontinue;\n\t\t}\n", "\t\tif tx.confirmed {\n\t\t\tcontinue;\n\t\t}\n\t\tif tx.tx_type == TxLogEntryType::TxReverted {\n\t\t\tcontinue;\n\t\t}\n", "expiry step: the two skips written as separate ifs")
+b("B53", TX, "\t} else {\n\t\t// nothing names the transaction to cancel\n\t\treturn Err(Error::TransactionDoesntExist(tx_id_string));\n\t}\n", "\t}\n\tif tx_id.is_none() && tx_slate_id.is_none() {\n\t\t// nothing names the transaction to cancel\n\t\treturn Err(Error::TransactionDoesntExist(tx_id_string));\n\t}\n", "cancel_tx: the no-id refusal written as a separate is_none test")
+b("B55", SCAN, "\t\t\t.filter(|o| {\n\t\t\t\to.output.status == OutputStatus::Unconfirmed && !chain_commits.contains(&o.commit)\n\t\t\t})\n", "\t\t\t.filter(|o| o.output.status == OutputStatus::Unconfirmed)\n\t\t\t.filter(|o| !chain_commits.contains(&o.commit))\n", "scan: the selection of stale unconfirmed records written as two filters")
+b("B59", SCAN, "\t\tlet max_child_index = found_parents.entry(deffo.key_id.parent_path()).or_insert(0);\n\t\tif deffo.n_child > *max_child_index {\n\t\t\t*max_child_index = deffo.n_child;\n\t\t}\n", "\t\tlet n_child = deffo.n_child;\n\t\tfound_parents\n\t\t\t.entry(deffo.key_id.parent_path())\n\t\t\t.and_modify(|m| *m = (*m).max(n_child))\n\t\t\t.or_insert(n_child);\n", "scan: running maximum written with entry().and_modify().or_insert()")
 
 def _apply(mu, repo_copy):
     p = os.path.join(repo_copy, mu["file"])
